@@ -5,14 +5,24 @@ import random
 from pyvc.bounded import Harness, Failure
 from spec import pddl_sem as PS, semantics as SEM, gen as G, repo_api as RA, sexp as SX
 
-CONTRACTS = {}
+GP = "models.grounded_precondition:"
+CONTRACTS = {
+    GP + "BinaryOperator[and]": dict(prop="C02", params={"x": "bool", "y": "bool"}, returns="bool", allocates=False,
+                                     ensures=["result == (x and y)"], raises={}, modifies=[]),
+    GP + "BinaryOperator[or]": dict(prop="C02", params={"x": "bool", "y": "bool"}, returns="bool", allocates=False,
+                                    ensures=["result == (x or y)"], raises={}, modifies=[]),
+}
 LEVEL = "other"
 EXPLANATION = ("bounded stand-in: truth tables of generated preconditions (literals, (in)equality, numeric comparisons, and/or nesting, "
                "forall over a type and its subtypes) against the spec semantics holds(), for every state over the atoms the formula reads "
-               "and every argument tuple incl. repeated objects and a domain constant. Deductive contracts on the evaluator are listed in "
+               "and every argument tuple incl. repeated objects and a domain constant; quantified formulas also with an extra declared object that occurs in no fact or fluent of the state. Deductive contracts on the evaluator are listed in "
                "functions_under_contract when present.")
 TRUSTED = ["spec/semantics.py:holds (PDDL semantics)", "spec/pddl_sem.py:sem_pre (independent reading of the formula text)"]
 ASSUMPTIONS = ["bounded: 2 objects (o1 - a, o2 - b, b < a) + optional constant k; formulas from spec/gen.py:formulas(); fluent values in {0,1,2}"]
+
+
+HIDDEN_FORMULAS = ["(and (or (p ?x) (forall (?z - a) (and (q ?z)))))", "(and (g) (or (forall (?z - a) (or (p ?z) (q ?z))) (r ?x ?y)))",
+                   "(and (or (and (forall (?z - object) (and (not (r ?z ?x)))) (p ?x)) (q ?y)))", "(and (forall (?z - a) (and (not (r ?z ?x)))))"]
 
 
 class TruthTables(Harness):
@@ -33,6 +43,11 @@ class TruthTables(Harness):
             yield {"pre": f, "const": False, "tier": tier}
         for f in G.const_formulas():
             yield {"pre": f, "const": True, "tier": tier}
+        for f in G.formulas(lvl):
+            if "forall" in f and "(f " not in f and "(d " not in f and "(c)" not in f:
+                yield {"pre": f, "const": False, "tier": tier, "hidden": True}
+        for f in HIDDEN_FORMULAS:
+            yield {"pre": f, "const": False, "tier": tier, "hidden": True}
 
     def nontrivial_key(self, inp):
         return inp["pre"] if inp["pre"] != "(and)" else None
@@ -47,15 +62,20 @@ class TruthTables(Harness):
         dom = d[1]
         F = PS.sem_pre(SX.read_text(inp["pre"]), G.PREDS, G.FUNCS)
         objects = dict(G.OBJECTS)
+        hidden = inp.get("hidden", False)
+        if hidden:
+            objects["o9"] = "a"      # a declared object that occurs in no fact and no fluent of any enumerated state
         pobjs = {n: PDDLObject(n, dom.types[t]) for n, t in objects.items()}
         allobjs = dict(objects)
         if inp["const"]:
             allobjs.update(G.CONSTS)
-        names = list(allobjs)
+        names = [n for n in allobjs if n != "o9"]
         tuples = list(itertools.product(names, repeat=2))
         envs = [{"?x": a, "?y": b} for a, b in tuples]
         atoms, fls = G.mentioned([F], envs, allobjs)
-        _, all_fls = G.ground_atoms(allobjs)
+        _, all_fls = G.ground_atoms({k: v for k, v in allobjs.items() if k != "o9"})
+        atoms = [a for a in atoms if "o9" not in a[1]]
+        fls = [f for f in fls if "o9" not in f[1]]
         rnd = random.Random(hash(inp["pre"]) & 0xffff)
         out = []
         action = dom.actions["act"]
